@@ -56,8 +56,7 @@ Print Assumptions C14_diff_partition.
 (* Completeness of the canonical labelling - isomorphic inputs get EQUAL
    canonical forms - for a canonicaliser [canon].  unproved; differential
    evidence only (this is the correctness of rdflib's Traces-style
-   individualisation search with its pruning; it is FALSE for blank nodes in
-   predicate position, finding FC14a). *)
+   individualisation search with its pruning). *)
 Definition C14_complete_statement (canon : graph -> graph) : Prop :=
   forall g1 g2, iso g1 g2 -> gseteq (canon g1) (canon g2).
 
@@ -117,16 +116,14 @@ Proof.
 Qed.
 Print Assumptions C14_skolem_roundtrip_external.
 
-(* GLUE, not a statement about compare.py: outside finding FC14a the expected
+(* GLUE, not a statement about compare.py: the expected
    observation of suite "iso" is the verified ORACLE's answer (plus one valid choice
    of canonical graphs), and that answer passes the oracle-based checker.  The
    suite is differential testing of rdflib against the oracle; the theorems about
    the transcription of compare.py are further down (C14_canonical_triples_relabels,
    C14_model_isomorphic_sound, C14_refine_invariant, C14_label_independent_partial). *)
-Theorem C14_spec_ok_model_glue : forall c, kf c = 0%N -> spec_ok c (model_obs c) = true.
+Theorem C14_spec_ok_model_glue : forall c, spec_ok c (model_obs c) = true.
 Proof. exact spec_ok_model. Qed.
-(* (inside the region of FC14a the expected observation is marked "verdicts not
-   determined" - see Iso/Model.v kf - and only rdflib's own answer is judged) *)
 Print Assumptions C14_spec_ok_model_glue.
 
 (* Prop-level readings of the checker *)
@@ -160,22 +157,15 @@ Theorem C14_spec_skolem_reading : forall c o,
 Proof. exact spec_skolem_reading. Qed.
 Print Assumptions C14_spec_skolem_reading.
 
-(* Finding FC14a (a blank node as predicate), trigger = some triple has a
-   blank-node predicate and the graphs are isomorphic: the graphs {_:0 _:1 _:2 . _:2 <3> <4>} and a relabelled
-   copy ARE isomorphic, the canonicaliser model (instance with the hash in N
-   arithmetic; rdflib likewise) answers False, and the checker rejects an
-   observation with that verdict. *)
-Theorem C14_blank_predicate_refuted :
-  exists c, kf c = 1%N /\ iso (c_g1 c) (c_g2 c)
-            /\ isoN_i (c_g1 c) (c_g2 c) = Some false
-            /\ spec_ok c (model_obs_with false c) = false.
-Proof.
-  exists {| c_g1 := [(Blank 0, Blank 1, Blank 2); (Blank 2, Const 3, Const 4)];
-            c_g2 := [(Blank 5, Blank 6, Blank 7); (Blank 7, Const 3, Const 4)] |}%N.
-  split; [reflexivity|]. split; [apply iso_dec_correct; vm_compute; reflexivity|].
-  split; vm_compute; reflexivity.
-Qed.
-Print Assumptions C14_blank_predicate_refuted.
+(* Former finding FC14a (a blank node as predicate leaked its label into the
+   colours; fixed by 07e5253f, which the model follows): the reviewer's witness
+   {_:0 _:1 _:2 . _:2 <3> <4>} against a relabelled copy is isomorphic and the
+   canonicaliser model (instance with the hash in N arithmetic) now says so. *)
+Example C14_blank_predicate_regression :
+  let g1 := [(Blank 0, Blank 1, Blank 2); (Blank 2, Const 3, Const 4)]%N in
+  let g2 := [(Blank 5, Blank 6, Blank 7); (Blank 7, Const 3, Const 4)]%N in
+  iso g1 g2 /\ isoN_i g1 g2 = Some true.
+Proof. cbv zeta. split; [apply iso_dec_correct; vm_compute; reflexivity|vm_compute; reflexivity]. Qed.
 
 (* non-vacuity: two 6-cycles with different labels are isomorphic, a 6-cycle and
    two triangles (same degree sequence) are not; the checker accepts the model on both *)
@@ -276,14 +266,13 @@ Proof.
 Qed.
 Print Assumptions C14_model_isomorphic_sound.
 
-(* INVARIANCE of refinement: for a one-to-one renaming f and a graph without
-   blank predicates, _initial_color and _refine commute with f - the colouring
+(* INVARIANCE of refinement: for a one-to-one renaming f (any graph, blank
+   predicates included since fix 07e5253f), _initial_color and _refine commute with f - the colouring
    of the renamed graph is the renamed colouring (same hashes, same order), so
    isomorphic graphs get corresponding partitions. *)
 Theorem C14_refine_invariant :
   forall hashfunc n3 hexs decs (f : N -> N) g,
   (forall x y, f x = f y -> x = y) ->
-  (forall t, In t g -> is_bnode (pred_of t) = false) ->
   m_initial_color hashfunc n3 hexs decs (rename_g f g) = map (rc f) (m_initial_color hashfunc n3 hexs decs g)
   /\ (forall fuel coloring sequence,
         m_refine hashfunc n3 hexs decs (rename_g f g) fuel (map (rc f) coloring) (map (rc f) sequence)
@@ -295,7 +284,7 @@ Theorem C14_refine_invariant :
                      (let c0 := m_initial_color hashfunc n3 hexs decs g in
                       m_refine hashfunc n3 hexs decs g fuel c0 c0)).
 Proof.
-  intros hf n3 hx dc f g Hf Hp. split; [|split].
+  intros hf n3 hx dc f g Hf. split; [|split].
   - now apply initial_color_rc.
   - intros. now apply refine_rc.
   - intros. now apply refined_partition_invariant.
@@ -320,13 +309,12 @@ Print Assumptions C14_refine_invariant.
 Theorem C14_complete_discrete_partial :
   forall hashfunc n3 hexs decs tstr (f : N -> N) g fuel,
   (forall x y, f x = f y -> x = y) ->
-  (forall t, In t g -> is_bnode (pred_of t) = false) ->
   refine_decides hashfunc n3 hexs decs g fuel ->
   (m_canonical_triples hashfunc n3 hexs decs tstr (rename_g f g) fuel = m_canonical_triples hashfunc n3 hexs decs tstr g fuel)
   /\ (forall cts, m_canonical_triples hashfunc n3 hexs decs tstr g fuel = Some cts ->
         m_isomorphic hashfunc n3 hexs decs tstr fuel g (rename_g f g) = Some true).
 Proof.
-  intros hf n3 hx dc ts f g fuel Hf Hp Hd. split.
+  intros hf n3 hx dc ts f g fuel Hf Hd. split.
   - now apply canonical_triples_label_independent_discrete.
   - intros cts Hc. eapply model_complete_discrete_sameorder; eauto.
 Qed.
@@ -344,19 +332,18 @@ Print Assumptions C14_complete_discrete_partial.
    graph whose blank nodes are renamed one-to-one - keeping the order of triples
    and of set iteration - gets literally the same canonical triples, so the
    modelled isomorphic() answers True (when it answers at all: None is fuel
-   exhaustion or a Python exception).  Graphs without blank predicates (with
-   them the statement is false: finding FC14a).
+   exhaustion or a Python exception).  All graphs, blank predicates included
+   (before fix 07e5253f the statement was false for them: former finding FC14a).
    What separates this from full completeness is ORDER independence only
    (lemmas L-order / L-traces above). *)
 Theorem C14_label_independent_partial :
   forall hashfunc n3 hexs decs tstr (f : N -> N) g fuel,
   (forall x y, f x = f y -> x = y) ->
-  (forall t, In t g -> is_bnode (pred_of t) = false) ->
   (m_canonical_triples hashfunc n3 hexs decs tstr (rename_g f g) fuel = m_canonical_triples hashfunc n3 hexs decs tstr g fuel)
   /\ (forall cts, m_canonical_triples hashfunc n3 hexs decs tstr g fuel = Some cts ->
         m_isomorphic hashfunc n3 hexs decs tstr fuel g (rename_g f g) = Some true).
 Proof.
-  intros hf n3 hx dc ts f g fuel Hf Hp. split.
+  intros hf n3 hx dc ts f g fuel Hf. split.
   - now apply canonical_triples_label_independent.
   - intros cts Hc. eapply model_complete_sameorder; eauto.
 Qed.
